@@ -18,7 +18,7 @@ static ALLOC: s_serde::Counting2 = s_serde::Counting2;
 fn main() {
     let args: Vec<String> = std::env::args().collect();
     let stream = args.get(1).map(String::as_str).unwrap_or("");
-    common::silence_panics();
+    if std::env::var("HARNESS_SHOW_PANICS").is_err() { common::silence_panics(); }
     let f: fn(&str) -> String = match stream {
         "biguint" => s_biguint::line,
         "bigrat" => s_bigrat::line,
